@@ -116,4 +116,42 @@ PROPS = {
                  "string match on >= 1 buffer; distinct by hash of (all rule text, buffers, variant choices)."),
         "assumptions": ["identical match lists are required including reported lengths of variable-length strings"],
     },
+    "C08": {
+        "src": "c08", "engine": "rc", "level": "exploration",
+        "technique": "round-trip property-based testing (rapidcheck): save/load through memory streams, chunked pipes and files; byte-identity across saves, compilations and processes",
+        "level_text": ("Generated rule sets covering every construct class are saved and loaded back through an exact "
+                       "in-memory stream, a pipe-backed FILE* fed in generated chunk sizes (buffered and unbuffered) and "
+                       "yr_rules_save/load on a file; the loaded rules must produce the same full trace (messages and "
+                       "per-string matches) through rules-level and scanner scans, enumerate the same rules/tags/metas/"
+                       "strings/externals, the original must scan identically after saving, and the bytes must be "
+                       "identical across two saves, a save of the loaded rules, two compilations in one process and a "
+                       "compilation in a separate process (ASLR on, and under setarch -R)."),
+        "level_note": ("Trusts the shim; the cross-process comparison runs on ~4% of the cases (a helper process per case); "
+                       "string externals redefined at rules level are exercised only by the known-finding fixed case."),
+        "quick": (1200, 45), "thorough": (50000, 600),
+        "floor": 50,
+        "rule": ("case = generated rule set (1-8 rules, 1-3 namespaces, text/hex/regexp strings incl. chained ones, loops, "
+                 "imports, four external types, tags, metas) + 1-3 buffers + a load path (exact stream / chunked pipe / "
+                 "unbuffered chunked pipe / file) + optional rules-level redefinition of int/float/bool externals before "
+                 "saving. Non-trivial: >= 3 construct classes among {text, hex, regexp, chained, several namespaces, "
+                 "imports, loops} and >= 1 rule matches >= 1 buffer; distinct by hash of (rule text, buffers, options)."),
+        "assumptions": ["a stream delivers data with fread semantics (full count unless the data ends); chunking happens underneath"],
+    },
+    "C19": {
+        "src": "c19", "engine": "rc", "level": "exploration",
+        "technique": "configuration-differential property-based testing (rapidcheck) using the YARA_VERIF arena-capacity hook under ASan",
+        "level_text": ("Each generated rule set is compiled with the stock 1 MiB initial arena capacity and with 2-5 "
+                       "capacities drawn from {1,2,3,5,8,...,65536} and random values, which moves every buffer growth "
+                       "(always a relocation under ASan) over every position of the compilation; the serialised image must "
+                       "be byte-identical and the full scan traces equal, and ASan reports any stale reference as a "
+                       "use-after-free during compilation."),
+        "level_note": ("Trusts the hook (one #ifdef block) and ASan's realloc-always-moves behaviour; rule sets up to 16 "
+                       "rules (40 in the thorough tier); growth of the stock 1 MiB buffers themselves is not reached."),
+        "quick": (1000, 45), "thorough": (40000, 600),
+        "floor": 50,
+        "rule": ("case = generated rule set + 1-2 buffers + 2-5 initial capacities. Non-trivial: some buffer grew >= 3 "
+                 "times during a compilation (counted from the arena's final sizes) and the set has >= 2 string kinds; "
+                 "distinct by hash of (rule text, buffers, capacities)."),
+        "assumptions": [],
+    },
 }
